@@ -28,7 +28,7 @@ META = {
         'Trusted: harness, printer. The error CODE of each real fault comes from the GW-BASIC manual (table FAULTS in '
         'vf/gen/c19_progs.py). Not pinned by the statement, hence not generated: ERR/ERL outside a handler or after RESUME; '
         'division by zero without an armed trap (soft-handled: message and continue) - 1/0, 7\\0, 7 MOD 0 are generated only '
-        'where a trap is armed, else the program is discarded; ON ERROR '
+        'where a trap is armed, else the program is discarded; RESUME n to a line that does not exist (the implementation leaves handler mode before it resolves the line, so the Undefined line number is trapped again - not generated); ON ERROR '
         'inside a handler; falling off the program end inside a handler (No RESUME); soft arithmetic errors in a DEF FN body without an armed trap; faults in IF conditions and in '
         'IF..THEN line-number jumps (what "the next statement" is there); ERROR 0 / ERROR 256.'),
     'rule': ('case = one generated program (text + direct line); distinct by text; non-trivial = at least one error was '
@@ -44,7 +44,8 @@ META = {
         'direct_mode_handler_entered', 'error_table_codes', 'directed_cases',
         'ended_by_defined_error_code', 'ended_by_undefined_error_code', 'budget_exhausted',
         'ref_fn:body-raises', 'gen_fault_in_def_fn_body',
-        'ref_resume:outside-handler:trap-armed', 'ref_fatal:no-resume', 'gen_jump_into_handler_code', 'gen_main_runs_into_handler', 'gen_blanks_around_colons']},
+        'ref_resume:outside-handler:trap-armed', 'ref_fatal:no-resume', 'gen_jump_into_handler_code', 'gen_main_runs_into_handler', 'gen_blanks_around_colons',
+        'gen_for_without_next', 'gen_while_without_wend', 'gen_control_fault']},
     'timeout': {'quick': 600, 'thorough': 7200},
 }
 
@@ -134,6 +135,23 @@ DIRECTED = [
      b'h 4  30 \r\nb 1 \r\n'),
     ('resume:blanks-around-colons', ['10 ON ERROR GOTO 100  :  PRINT "a"  :  ERROR 5  :  PRINT "b"', '30 END',
                                      H + 'C%=C%+1  :  IF C%<2 THEN RESUME ELSE RESUME NEXT'], None, b'a\r\nh 5  10 \r\nh 5  10 \r\nb\r\n'),
+    ('control-error:for-without-next:trapped-erl-is-the-for-line',
+     ['10 ON ERROR GOTO 100', '20 PRINT "a"', '30 PRINT "b":FOR I%=1 TO 0:PRINT "c"', '40 PRINT "d":END', H + 'RESUME NEXT'], None,
+     b'a\r\nb\r\nh 26  30 \r\nc\r\nd\r\n'),
+    ('control-error:for-without-next:untrapped-names-the-for-line',
+     ['10 PRINT "a"', '20 PRINT "b":FOR I%=1 TO 0:PRINT "c"', '30 PRINT "d"', '40 FOR J%=1 TO 2:NEXT'], None, b'a\r\nb\r\nFOR without NEXT in 20' + E),
+    ('control-error:for-without-next:non-empty-loop', ['10 PRINT "a"', '20 FOR I%=1 TO 3', '30 PRINT "d"'], None, b'a\r\nFOR without NEXT in 20' + E),
+    ('control-error:while-without-wend:trapped-and-untrapped',
+     ['10 ON ERROR GOTO 100', '20 PRINT "a":WHILE 0:PRINT "c"', '30 ON ERROR GOTO 0', '40 WHILE 1', '50 PRINT "no"', H + 'RESUME NEXT'], None,
+     b'a\r\nh 29  20 \r\nc\r\nWHILE without WEND in 40' + E),
+    ('control-error:next-wend-return-trapped',
+     ['10 ON ERROR GOTO 100', '20 NEXT', '30 WEND', '40 RETURN', '50 PRINT "e":END', H + 'RESUME NEXT'], None,
+     b'h 1  20 \r\nh 30  30 \r\nh 3  40 \r\ne\r\n'),
+    ('control-error:undefined-line-in-goto-gosub-restore',
+     ['10 ON ERROR GOTO 100', '20 GOTO 64999', '30 GOSUB 64998:PRINT "g"', '40 RESTORE 64997', '50 ON 1 GOTO 64996', '60 PRINT "e":END',
+      H + 'RESUME NEXT'], None, b'h 8  20 \r\nh 8  30 \r\ng\r\nh 8  40 \r\nh 8  50 \r\ne\r\n'),
+    ('control-error:untrapped-in-subroutine-names-its-line',
+     ['10 GOSUB 100', '20 END', '100 PRINT "s"', '110 WHILE 1', '120 PRINT "no":RETURN'], None, b's\r\nWHILE without WEND in 110' + E),
     ('no-handler:message-names-line', ['10 PRINT "a"', '20 PRINT "b":ERROR 53:PRINT "no"'], None, b'a\r\nb\r\nFile not found in 20' + E),
     ('no-handler:undefined-code', ['10 ERROR 200'], None, b'Unprintable error in 10' + E),
     ('on-error-goto-0:switches-trap-off', ['10 ON ERROR GOTO 100', '20 ON ERROR GOTO 0', '30 PRINT "a":ERROR 5', H + 'RESUME NEXT'], None,
